@@ -135,7 +135,6 @@ type serverConn struct {
 }
 
 func (sc *serverConn) closeIdleConn() {
-	sc.writeGoAway(0, NoError, "connection has been idle for a long time")
 	if sc.debug {
 		sc.logger.Printf("Connection is idle. Closing\n")
 	}
@@ -329,7 +328,7 @@ func (sc *serverConn) readLoop() (err error) {
 				// 4.1). The exception is one appearing inside a header block,
 				// which 6.10 makes a connection error.
 				if expectContinuation != 0 {
-					sc.writeGoAway(0, ProtocolError, "extension frame inside a header block")
+					sc.connError(ProtocolError, "extension frame inside a header block")
 					return errConnClosed
 				}
 
@@ -342,7 +341,7 @@ func (sc *serverConn) readLoop() (err error) {
 			// connection error: emit the GOAWAY and close the connection.
 			var h2err Error
 			if errors.As(err, &h2err) && h2err.frameType == FrameGoAway {
-				sc.writeGoAway(0, h2err.Code(), h2err.Error())
+				sc.connError(h2err.Code(), h2err.Error())
 				return errConnClosed
 			}
 
@@ -354,7 +353,7 @@ func (sc *serverConn) readLoop() (err error) {
 		// CONTINUATION frames on the same stream, with nothing interleaved.
 		if expectContinuation != 0 {
 			if fr.Type() != FrameContinuation || fr.Stream() != expectContinuation {
-				sc.writeGoAway(0, ProtocolError, "expected a CONTINUATION frame")
+				sc.connError(ProtocolError, "expected a CONTINUATION frame")
 				ReleaseFrameHeader(fr)
 				return errConnClosed
 			}
@@ -363,7 +362,7 @@ func (sc *serverConn) readLoop() (err error) {
 				expectContinuation = 0
 			}
 		} else if fr.Type() == FrameContinuation {
-			sc.writeGoAway(0, ProtocolError, "unexpected CONTINUATION frame")
+			sc.connError(ProtocolError, "unexpected CONTINUATION frame")
 			ReleaseFrameHeader(fr)
 			return errConnClosed
 		} else if fr.Type() == FrameHeaders && !fr.Flags().Has(FlagEndHeaders) {
@@ -374,12 +373,15 @@ func (sc *serverConn) readLoop() (err error) {
 			if cerr := sc.checkFrameWithStream(fr); cerr != nil {
 				// a frame that violates connection-level rules is a
 				// connection error: emit the GOAWAY and terminate.
-				sc.writeError(nil, cerr)
+				sc.connError(ProtocolError, cerr.Error())
 				ReleaseFrameHeader(fr)
 				return errConnClosed
 			}
 
-			sc.reader <- fr
+			if !sc.toStreamLoop(fr) {
+				return errConnClosed
+			}
+
 			continue
 		}
 
@@ -391,19 +393,25 @@ func (sc *serverConn) readLoop() (err error) {
 				sc.handleSettings(st)
 				// forward to handleStreams so the INITIAL_WINDOW_SIZE delta is
 				// applied to open streams in frame order.
-				sc.reader <- fr
+				if !sc.toStreamLoop(fr) {
+					return errConnClosed
+				}
+
 				continue
 			}
 		case FrameWindowUpdate:
 			win := int64(fr.Body().(*WindowUpdate).Increment())
 			if win == 0 {
-				sc.writeGoAway(0, ProtocolError, "window increment of 0")
+				sc.connError(ProtocolError, "window increment of 0")
 				ReleaseFrameHeader(fr)
 				return errConnClosed
 			}
 
 			// the actual window bookkeeping happens in handleStreams.
-			sc.reader <- fr
+			if !sc.toStreamLoop(fr) {
+				return errConnClosed
+			}
+
 			continue
 		case FramePing:
 			ping := fr.Body().(*Ping)
@@ -418,7 +426,7 @@ func (sc *serverConn) readLoop() (err error) {
 				err = fmt.Errorf("goaway: %s: %s", ga.Code(), ga.Data())
 			}
 		default:
-			sc.writeGoAway(0, ProtocolError, "invalid frame")
+			sc.connError(ProtocolError, "invalid frame")
 			ReleaseFrameHeader(fr)
 			return errConnClosed
 		}
@@ -427,6 +435,38 @@ func (sc *serverConn) readLoop() (err error) {
 	}
 
 	return err
+}
+
+// toStreamLoop hands a frame to the stream loop. It reports false, and
+// releases the frame, when the stream loop has gone: that happens after a
+// connection error it detected itself, and a bare send would then block this
+// goroutine, and with it ServeConn, for as long as the process lives.
+func (sc *serverConn) toStreamLoop(fr *FrameHeader) bool {
+	select {
+	case sc.reader <- fr:
+		return true
+	case <-sc.handlerStop:
+		ReleaseFrameHeader(fr)
+
+		return false
+	}
+}
+
+// connError reports a connection error found by the read loop. The GOAWAY is
+// written by the stream loop, which is the only place that knows which streams
+// have been handed to a handler: a last-stream-id made up here (it used to be
+// 0) tells the peer it may replay requests that were in fact processed. The
+// report travels down the same queue as the frames, so everything the peer
+// sent before the offending frame is seen first.
+func (sc *serverConn) connError(code ErrorCode, message string) {
+	ga := AcquireFrame(FrameGoAway).(*GoAway)
+	ga.SetCode(code)
+	ga.SetData([]byte(message))
+
+	fr := AcquireFrameHeader()
+	fr.SetBody(ga)
+
+	sc.toStreamLoop(fr)
 }
 
 // handleStreams handles everything related to the streams
@@ -577,6 +617,10 @@ loop:
 
 		select {
 		case <-sc.closer:
+			// The idle timer fired. The GOAWAY is written here rather than on
+			// the timer's goroutine for the sake of its last-stream-id.
+			sc.writeGoAway(0, NoError, "connection has been idle for a long time")
+
 			break loop
 		case strm := <-sc.handlerDone:
 			strm.handlerRunning = false
@@ -680,6 +724,13 @@ loop:
 
 						sc.flushStreams(strms, closeStream)
 					}
+				case FrameGoAway:
+					// Not from the peer: the read loop reporting a connection
+					// error (see connError).
+					ga := fr.Body().(*GoAway)
+					sc.writeGoAway(0, ga.Code(), string(ga.Data()))
+
+					break loop
 				case FrameWindowUpdate:
 					sc.clientWindow += int64(fr.Body().(*WindowUpdate).Increment())
 					if sc.clientWindow > 1<<31-1 {
@@ -1070,7 +1121,15 @@ func (sc *serverConn) writeGoAway(strm uint32, code ErrorCode, message string) {
 
 	fr := AcquireFrameHeader()
 
-	ga.SetStream(strm)
+	// last-stream-id is the highest stream that was, or may still be, handed
+	// to a handler (RFC 7540 6.8). The stream that provoked the error says
+	// nothing about that: it can be lower than streams already served.
+	last := sc.lastID
+	if strm > last {
+		last = strm
+	}
+
+	ga.SetStream(last)
 	ga.SetCode(code)
 	ga.SetData([]byte(message))
 
